@@ -81,6 +81,27 @@ def run(ctx):
                                  "clause": "every rate equals the threshold exactly (dx = threshold x dt): equality must not flag"})
     out["failures"] += dec_fail
     out["evaluations"] += dec_n
+    # the time axis as whole epoch seconds in 32-bit / 64-bit integer arrays (the usual netCDF time types) and as a list
+    ep_fail, ep_n = [], 0
+    for ad_, gen_ in ((roc, gen_roc), (spd, gen_speed)):
+        pool = [c for c in gen_(ctx["tier"], rng) if len(c.get("ts_ns", [])) >= 2 and all(t % 10 ** 9 == 0 for t in c["ts_ns"])]
+        for c in cc.sample(pool, 40 if ctx["tier"] == "quick" else 400, rng):
+            base, _ = ad_.impl(c)
+            for tc in ("epoch_s_int32", "epoch_s_uint32", "epoch_s_int64", "epoch_s_list"):
+                tr, applied = cc.carrier_transform(None, tc, None)
+                core.KW_TRANSFORM = tr
+                try:
+                    got, _ = ad_.impl(c)
+                finally:
+                    core.KW_TRANSFORM = None
+                if applied["n"]:
+                    ep_n += 1
+                    if got != base:
+                        ep_fail.append({"kind": "predicate", "function": ad_.name, "case": c, "impl": base, "impl_carrier": got,
+                                        "carrier": {"time": tc},
+                                        "clause": f"flags differ when the whole-second times are given as {tc}"})
+    out["failures"] += ep_fail
+    out["evaluations"] += ep_n
     return out
 
 
